@@ -9,11 +9,11 @@ EXTENDS Integers, Sequences, FiniteSets, TLC, Json
 
 CONSTANTS Family, NRandom
 
-TextAtoms == {"t_empty", "t_a", "t_quote", "t_bslash", "t_lf", "t_ctl", "t_emoji", "t_script", "t_ls"}
+TextAtoms == {"t_empty", "t_a", "t_quote", "t_bslash", "t_lf", "t_ctl", "t_emoji", "t_script", "t_ls", "t_kctl"}
 NumAtoms == {"n_0", "n_m1", "n_1p5", "n_1e21", "n_2p53"}
 OtherAtoms == {"true", "false", "null"}
 Atoms == TextAtoms \cup NumAtoms \cup OtherAtoms
-KeyAtoms == {"t_a", "t_quote", "t_emoji"}
+KeyAtoms == {"t_a", "t_quote", "t_emoji", "t_kctl"}     \* t_kctl: control characters, DEL, VT, a non-printable astral character, a backslash
 
 A(a) == [t |-> "atom", a |-> a]
 L(items) == [t |-> "list", items |-> items]
